@@ -5,6 +5,7 @@ use crate::refmodel::ops;
 use crate::refmodel::tree::{Kind, M, D};
 use crate::report::{Acc, Ctx, catch, finish};
 use bc_envelope::prelude::*;
+use bc_components::DigestProvider as _;
 use rayon::prelude::*;
 use serde_json::json;
 use std::collections::HashSet;
@@ -55,6 +56,7 @@ pub fn run(ctx: &Ctx) -> i32 {
     let th = ctx.tier.thorough();
     let w = if th { 8 } else { 6 };
     let w2 = if th { 5 } else { 4 };
+    let wv = if th { 6 } else { 5 };
     let mut trees = families::marked(w);
     let nplain = trees.len();
     // the re-used-marker instantiation adds multi-position targets
@@ -131,6 +133,47 @@ pub fn run(ctx: &Ctx) -> i32 {
                 } } }
             } } }
         }
+        // every convenience variant (set / array / single target, with and without an action, removing / revealing / explicit flag)
+        // must give what the core call gives for the same targets
+        if ti < nplain && m.weight() <= wv {
+            for mask in 0u32..(1u32 << k) {
+                let tv: Vec<Digest> = (0..k).filter(|i| mask >> i & 1 == 1).map(|i| Digest::from_data(ds[i])).collect();
+                let tset: HashSet<Digest> = tv.iter().cloned().collect();
+                let arr: Vec<&dyn DigestProvider> = tv.iter().map(|d| d as &dyn DigestProvider).collect();
+                for revealing in [false, true] {
+                    for (kind, action) in super::c02::actions() {
+                        let Ok(core) = catch(|| bind::observe(&e.elide_set_with_action(&tset, revealing, &action))) else { continue };
+                        let mut variants: Vec<(&'static str, Result<Envelope, crate::report::Panic>)> = vec![
+                            ("elide_array_with_action", catch(|| e.elide_array_with_action(&arr, revealing, &action))),
+                            (if revealing { "elide_revealing_set_with_action" } else { "elide_removing_set_with_action" }, catch(|| if revealing { e.elide_revealing_set_with_action(&tset, &action) } else { e.elide_removing_set_with_action(&tset, &action) })),
+                            (if revealing { "elide_revealing_array_with_action" } else { "elide_removing_array_with_action" }, catch(|| if revealing { e.elide_revealing_array_with_action(&arr, &action) } else { e.elide_removing_array_with_action(&arr, &action) })),
+                        ];
+                        if kind == Kind::Elided {
+                            variants.push(("elide_set", catch(|| e.elide_set(&tset, revealing))));
+                            variants.push(("elide_array", catch(|| e.elide_array(&arr, revealing))));
+                            variants.push((if revealing { "elide_revealing_set" } else { "elide_removing_set" }, catch(|| if revealing { e.elide_revealing_set(&tset) } else { e.elide_removing_set(&tset) })));
+                            variants.push((if revealing { "elide_revealing_array" } else { "elide_removing_array" }, catch(|| if revealing { e.elide_revealing_array(&arr) } else { e.elide_removing_array(&arr) })));
+                        }
+                        if tv.len() == 1 {
+                            let t1 = &tv[0];
+                            variants.push(("elide_target_with_action", catch(|| e.elide_target_with_action(t1, revealing, &action))));
+                            variants.push((if revealing { "elide_revealing_target_with_action" } else { "elide_removing_target_with_action" }, catch(|| if revealing { e.elide_revealing_target_with_action(t1, &action) } else { e.elide_removing_target_with_action(t1, &action) })));
+                            if kind == Kind::Elided {
+                                variants.push(("elide_target", catch(|| e.elide_target(t1, revealing))));
+                                variants.push((if revealing { "elide_revealing_target" } else { "elide_removing_target" }, catch(|| if revealing { e.elide_revealing_target(t1) } else { e.elide_removing_target(t1) })));
+                            }
+                        }
+                        for (vn, r) in variants {
+                            acc.inc("variant_api_calls");
+                            match r {
+                                Ok(x) => if bind::observe(&x) != core { acc.viol(format!("C03|variant|{vn}|differs-from-core"), format!("{vn} gives another result than elide_set_with_action for the same targets, mode and action"), format!("variants/tree{ti}/mask{mask}/rev{}/{kind:?}/{vn}", revealing as u8), json!({"tree": m.show(), "got": hex::encode(x.to_cbor_data())})) },
+                                Err(p) => acc.viol(format!("C03|variant|{vn}|panic|{}", p.site), p.msg.clone(), format!("variants/tree{ti}/mask{mask}/{vn}"), json!({})),
+                            }
+                        }
+                    }
+                }
+            }
+        }
         if ti % 211 == (ctx.seed as usize % 211) { acc.sample(json!({"tree": m.show(), "subsets": 1u32 << k})) }
         acc
     }).reduce(Acc::new, Acc::merge);
@@ -157,7 +200,7 @@ pub fn run(ctx: &Ctx) -> i32 {
         acc
     }).reduce(Acc::new, Acc::merge);
     let acc = acc.merge(acc2);
-    let evals = acc.get("elisions") + acc.get("second_pass_elisions") + acc.get("unelide_pairs");
+    let evals = acc.get("elisions") + acc.get("variant_api_calls") + acc.get("second_pass_elisions") + acc.get("unelide_pairs");
     let cov = json!({"evaluations": evals,
         "rule": "case = (tree with unique leaf markers, target subset incl. one absent digest, mode, action) compared with the model's elision semantics + byte-exact encoding for Elide + marker residue search; plus all (placeholder, candidate) unelide pairs; non-trivial = the model result hides at least one element",
         "exhaustive": true,
